@@ -149,9 +149,19 @@ func sigClassAPI(api string) string {
 
 // refWrite runs a writer history fault-free on a plain sink and reports
 // whether it is usable as a baseline (no error, no panic, closed).
-func refWrite(w *core.WriterSpec) (*core.WriteResult, bool) {
+func refWrite(w *core.WriterSpec) (*core.WriteResult, bool) { return refWriteKind(w, "w") }
+
+func sinkKindOr(k string) string {
+	if k == "" {
+		return "w"
+	}
+	return k
+}
+
+// refWriteKind is refWrite with the destination presented as the given sink kind.
+func refWriteKind(w *core.WriterSpec, kind string) (*core.WriteResult, bool) {
 	sink := &core.Sink{}
-	res := core.ExecWriter(w, sink)
+	res := core.ExecWriterKind(w, sink, kind)
 	if res.Failed() != nil || !res.Closed {
 		return res, false
 	}
